@@ -87,7 +87,7 @@ func (in *instr) Import(path string) (*types.Package, error) {
 
 func (in *instr) check(p *pkgInfo) error {
 	conf := types.Config{Importer: in, Error: func(error) {}}
-	p.info = &types.Info{Types: map[ast.Expr]types.TypeAndValue{}, Uses: map[*ast.Ident]types.Object{}, Defs: map[*ast.Ident]types.Object{}}
+	p.info = &types.Info{Types: map[ast.Expr]types.TypeAndValue{}, Uses: map[*ast.Ident]types.Object{}, Defs: map[*ast.Ident]types.Object{}, Selections: map[*ast.SelectorExpr]*types.Selection{}, InitOrder: []*types.Initializer{}}
 	path := modPath
 	if p.dir != "" {
 		path += "/" + p.dir
@@ -145,6 +145,9 @@ func main() {
 		for i, f := range pk.files {
 			rw := &rewriter{in: in, pkg: pk, file: f, fname: pk.fnames[i]}
 			rw.run()
+		}
+		resetFile := in.resetGlobals(pk)
+		for i, f := range pk.files {
 			outDir := filepath.Join(*out, pk.dir)
 			if pk.name == "main" {
 				outDir = filepath.Join(*out, pk.dir, "gsmain")
@@ -162,6 +165,13 @@ func main() {
 		}
 		if pk.name == "solver" {
 			writeKnobFile(filepath.Join(*out, pk.dir, "verif_knobs.go"), in.rep.Knobs)
+		}
+		{
+			outDir := filepath.Join(*out, pk.dir)
+			if pk.name == "main" {
+				outDir = filepath.Join(*out, pk.dir, "gsmain")
+			}
+			os.WriteFile(filepath.Join(outDir, "zz_verif_reset.go"), []byte(resetFile), 0o644)
 		}
 	}
 	// go.mod and runtime shim
@@ -184,6 +194,92 @@ func main() {
 	js, _ := json.MarshalIndent(in.rep, "", " ")
 	os.WriteFile(filepath.Join(*out, "sites.json"), js, 0o644)
 	fmt.Printf("gsinstr: %d sites %v skipped=%d knobs=%v taps=%v\n", len(in.rep.Sites), in.rep.Counts, len(in.rep.Skipped), in.rep.Knobs, in.rep.Taps)
+}
+
+// resetGlobals (rule R10): package-level variables are state that would survive from one simulated
+// world to the next inside one engine process (a real process starts afresh). Every file gets small
+// functions that put its package-level variables back to their initial values - the zero value, or the
+// initialiser expression, in the order the type checker computed - and the generated file
+// zz_verif_reset.go calls them all from VerifResetGlobals, which the engine runs when a world starts.
+// Not covered: init functions, and initialisers that mention package flag (registering twice panics).
+func (in *instr) resetGlobals(pk *pkgInfo) string {
+	name := pk.name
+	if name == "main" {
+		name = "gsmain"
+	}
+	var calls []string
+	if !in.disable["R10"] {
+		fileOf := func(pos token.Pos) *ast.File {
+			for _, f := range pk.files {
+				if f.FileStart <= pos && pos <= f.FileEnd {
+					return f
+				}
+			}
+			return nil
+		}
+		mentionsFlag := func(e ast.Expr) bool {
+			found := false
+			ast.Inspect(e, func(n ast.Node) bool {
+				if x, ok := n.(ast.Expr); ok {
+					if _, ok := pkgSel(x, "flag"); ok {
+						found = true
+					}
+				}
+				return !found
+			})
+			return found
+		}
+		// zero-valued variables first
+		for fi, f := range pk.files {
+			var body []ast.Stmt
+			for _, d := range f.Decls {
+				gd, ok := d.(*ast.GenDecl)
+				if !ok || gd.Tok != token.VAR {
+					continue
+				}
+				for _, sp := range gd.Specs {
+					vs := sp.(*ast.ValueSpec)
+					if len(vs.Values) != 0 || vs.Type == nil {
+						continue
+					}
+					for _, n := range vs.Names {
+						if n.Name == "_" {
+							continue
+						}
+						zero := &ast.StarExpr{X: &ast.CallExpr{Fun: id("new"), Args: []ast.Expr{vs.Type}}}
+						body = append(body, &ast.AssignStmt{Lhs: []ast.Expr{id(n.Name)}, Tok: token.ASSIGN, Rhs: []ast.Expr{zero}})
+					}
+				}
+			}
+			if len(body) > 0 {
+				fn := fmt.Sprintf("verifResetZero%d", fi)
+				f.Decls = append(f.Decls, &ast.FuncDecl{Name: id(fn), Type: &ast.FuncType{Params: &ast.FieldList{}}, Body: &ast.BlockStmt{List: body}})
+				calls = append(calls, fn)
+			}
+		}
+		for k, ini := range pk.info.InitOrder {
+			f := fileOf(ini.Rhs.Pos())
+			if f == nil || mentionsFlag(ini.Rhs) {
+				in.rep.Skipped = append(in.rep.Skipped, fmt.Sprintf("package-level initialiser of %v is not re-run between worlds", ini.Lhs))
+				continue
+			}
+			var lhs []ast.Expr
+			for _, v := range ini.Lhs {
+				lhs = append(lhs, id(v.Name()))
+			}
+			fn := fmt.Sprintf("verifResetInit%d", k)
+			body := []ast.Stmt{&ast.AssignStmt{Lhs: lhs, Tok: token.ASSIGN, Rhs: []ast.Expr{ini.Rhs}}}
+			f.Decls = append(f.Decls, &ast.FuncDecl{Name: id(fn), Type: &ast.FuncType{Params: &ast.FieldList{}}, Body: &ast.BlockStmt{List: body}})
+			calls = append(calls, fn)
+		}
+	}
+	var b bytes.Buffer
+	fmt.Fprintf(&b, "package %s\n\n// Generated by gsinstr (rule R10).\n\nfunc VerifResetGlobals() {\n", name)
+	for _, c := range calls {
+		fmt.Fprintf(&b, "\t%s()\n", c)
+	}
+	b.WriteString("}\n")
+	return b.String()
 }
 
 func writeKnobFile(path string, knobs []string) {
@@ -324,6 +420,17 @@ func (r *rewriter) run() {
 	if r.isMain {
 		r.file.Name = id("gsmain")
 	}
+	if r.on("R8") {
+		// whatever mention of os.Stdout / os.Stderr is left (package-level initialisers, values stored
+		// in variables, method calls on them) becomes a value that forwards to the world's stream
+		replaceExprs(r.file, func(parent ast.Node, e ast.Expr) ast.Expr {
+			if name, ok := pkgSel(e, "os"); ok && (name == "Stdout" || name == "Stderr") {
+				r.usedRT = true
+				return &ast.SelectorExpr{X: id("verifrt"), Sel: id(name + "File")}
+			}
+			return e
+		})
+	}
 	r.fixImports()
 }
 
@@ -371,6 +478,9 @@ func (r *rewriter) funcDecl(d *ast.FuncDecl) {
 	}
 	if r.on("R8") {
 		r.rewriteStdout(d.Body)
+	}
+	if r.on("R9") {
+		r.rewriteSync(d.Body)
 	}
 	if r.on("R2") && r.on("R2r") {
 		r.rewriteRecvs(d.Body)
@@ -828,6 +938,64 @@ func (r *rewriter) goStmt(s *ast.GoStmt) []ast.Stmt {
 	return []ast.Stmt{spawn, g}
 }
 
+// guardExit: in package main a deferred call must not run while the simulated os.Exit unwinds the
+// goroutine (a real os.Exit runs no deferred function).
+func (r *rewriter) guardExit(body []ast.Stmt) []ast.Stmt {
+	if !r.isMain || !r.on("R7") {
+		return body
+	}
+	return []ast.Stmt{&ast.IfStmt{Cond: &ast.UnaryExpr{Op: token.NOT, X: r.rtCall("Exiting")}, Body: &ast.BlockStmt{List: body}}}
+}
+
+// deferInMain wraps a deferred call of package main: function value and arguments are still evaluated
+// at the defer statement, the call itself is skipped when the process is exiting.
+func (r *rewriter) deferInMain(s *ast.DeferStmt) []ast.Stmt {
+	if fl, isLit := s.Call.Fun.(*ast.FuncLit); isLit && len(s.Call.Args) == 0 {
+		body := r.guardExit([]ast.Stmt{&ast.ExprStmt{X: &ast.CallExpr{Fun: fl}}})
+		return []ast.Stmt{&ast.DeferStmt{Call: &ast.CallExpr{Fun: &ast.FuncLit{Type: &ast.FuncType{Params: &ast.FieldList{}}, Body: &ast.BlockStmt{List: body}}}}}
+	}
+	if fid, ok := s.Call.Fun.(*ast.Ident); ok {
+		if _, builtin := r.pkg.info.Uses[fid].(*types.Builtin); builtin {
+			r.skip("deferred built-in in package main left unguarded", s.Pos())
+			return []ast.Stmt{s}
+		}
+	}
+	ft := r.typeOf(s.Call.Fun)
+	sig, ok := ft.(*types.Signature)
+	if !ok || sig.Variadic() || s.Call.Ellipsis != token.NoPos || sig.Params().Len() != len(s.Call.Args) {
+		r.skip("deferred call in package main left unguarded (variadic or multi-value)", s.Pos())
+		return []ast.Stmt{s}
+	}
+	fts, ok := r.typeStr(ft)
+	var fte ast.Expr
+	if ok {
+		fte = parseType(fts)
+	}
+	if fte == nil {
+		r.skip("deferred call in package main left unguarded (type not printable)", s.Pos())
+		return []ast.Stmt{s}
+	}
+	params := []*ast.Field{{Names: []*ast.Ident{id("_vf")}, Type: fte}}
+	var callArgs []ast.Expr
+	for i := 0; i < sig.Params().Len(); i++ {
+		ts, ok := r.typeStr(sig.Params().At(i).Type())
+		var te ast.Expr
+		if ok {
+			te = parseType(ts)
+		}
+		if te == nil {
+			r.skip("deferred call in package main left unguarded (type not printable)", s.Pos())
+			return []ast.Stmt{s}
+		}
+		n := fmt.Sprintf("_va%d", i)
+		params = append(params, &ast.Field{Names: []*ast.Ident{id(n)}, Type: te})
+		callArgs = append(callArgs, id(n))
+	}
+	body := r.guardExit([]ast.Stmt{&ast.ExprStmt{X: &ast.CallExpr{Fun: id("_vf"), Args: callArgs}}})
+	fl := &ast.FuncLit{Type: &ast.FuncType{Params: &ast.FieldList{List: params}}, Body: &ast.BlockStmt{List: body}}
+	return []ast.Stmt{&ast.DeferStmt{Call: &ast.CallExpr{Fun: fl, Args: append([]ast.Expr{s.Call.Fun}, s.Call.Args...)}}}
+}
+
 func (r *rewriter) deferStmt(s *ast.DeferStmt) []ast.Stmt {
 	r.exprs(s.Call)
 	if !r.on("R2") {
@@ -835,17 +1003,20 @@ func (r *rewriter) deferStmt(s *ast.DeferStmt) []ast.Stmt {
 	}
 	c, ok := isCloseCall(s.Call)
 	if !ok {
+		if r.isMain && r.on("R7") {
+			return r.deferInMain(s)
+		}
 		return []ast.Stmt{s}
 	}
 	site := r.site("close", s.Pos())
 	h := r.fresh("h")
 	arg := c.Args[0]
 	mk := func(chExpr ast.Expr) []ast.Stmt {
-		return []ast.Stmt{
+		return r.guardExit([]ast.Stmt{
 			r.preStmt(h, site, "KClose"),
 			&ast.ExprStmt{X: &ast.CallExpr{Fun: id("close"), Args: []ast.Expr{chExpr}}},
 			r.postStmt(h, site),
-		}
+		})
 	}
 	if t := r.typeOf(arg); t != nil {
 		if ts, ok := r.typeStr(t); ok {
@@ -1106,6 +1277,118 @@ func (r *rewriter) fixImports() {
 	}
 	r.file.Decls = decls
 	r.file.Imports = nil
+}
+
+// ---- R9 sync primitives ---------------------------------------------------------
+
+// syncRecvPtr builds a pointer to the sync value a method is called on (following embedded fields).
+func (r *rewriter) syncRecvPtr(se *ast.SelectorExpr, sel *types.Selection, wantPtr bool) ast.Expr {
+	cur := se.X
+	typ := r.typeOf(se.X)
+	if typ == nil {
+		return nil
+	}
+	idx := sel.Index()
+	for _, i := range idx[:len(idx)-1] {
+		t := typ
+		if p, ok := t.Underlying().(*types.Pointer); ok {
+			t = p.Elem()
+		}
+		st, ok := t.Underlying().(*types.Struct)
+		if !ok || i >= st.NumFields() {
+			return nil
+		}
+		f := st.Field(i)
+		cur = &ast.SelectorExpr{X: cur, Sel: id(f.Name())}
+		typ = f.Type()
+	}
+	if !wantPtr {
+		return cur
+	}
+	if _, isPtr := typ.Underlying().(*types.Pointer); isPtr {
+		return cur
+	}
+	return &ast.UnaryExpr{Op: token.AND, X: cur}
+}
+
+// rewriteSync: the blocking methods of sync.WaitGroup, Mutex, RWMutex, Once, Cond and Locker become
+// verifrt calls (see rt: bracketed or emulated so that the scheduler sees the task block).
+func (r *rewriter) rewriteSync(body *ast.BlockStmt) {
+	table := map[string]struct {
+		fn   string
+		site bool
+	}{
+		"WaitGroup.Wait": {"WGWait", true},
+		"Mutex.Lock":     {"MutexLock", true}, "Mutex.Unlock": {"MutexUnlock", false},
+		"RWMutex.Lock": {"RWLock", true}, "RWMutex.Unlock": {"RWUnlock", false},
+		"RWMutex.RLock": {"RWRLock", true}, "RWMutex.RUnlock": {"RWRUnlock", false},
+		"Once.Do":   {"OnceDo", true},
+		"Cond.Wait": {"CondWait", true}, "Cond.Signal": {"CondSignal", false}, "Cond.Broadcast": {"CondBroadcast", false},
+		"Locker.Lock": {"LockerLock", true}, "Locker.Unlock": {"LockerUnlock", false},
+	}
+	var rewrite func(parent ast.Node, e ast.Expr) ast.Expr
+	defer func() {
+		// the call of a defer or go statement is not an expression slot
+		ast.Inspect(body, func(n ast.Node) bool {
+			switch v := n.(type) {
+			case *ast.DeferStmt:
+				if c, ok := rewrite(v, v.Call).(*ast.CallExpr); ok {
+					v.Call = c
+				}
+			case *ast.GoStmt:
+				if c, ok := rewrite(v, v.Call).(*ast.CallExpr); ok {
+					v.Call = c
+				}
+			}
+			return true
+		})
+		replaceExprs(body, rewrite)
+	}()
+	rewrite = func(parent ast.Node, e ast.Expr) ast.Expr {
+		c, ok := e.(*ast.CallExpr)
+		if !ok {
+			return e
+		}
+		se, ok := c.Fun.(*ast.SelectorExpr)
+		if !ok {
+			return e
+		}
+		sel := r.pkg.info.Selections[se]
+		if sel == nil || sel.Kind() != types.MethodVal {
+			return e
+		}
+		fn, ok := sel.Obj().(*types.Func)
+		if !ok || fn.Pkg() == nil || fn.Pkg().Path() != "sync" {
+			return e
+		}
+		sig, ok := fn.Type().(*types.Signature)
+		if !ok || sig.Recv() == nil {
+			return e
+		}
+		rt := sig.Recv().Type()
+		if p, ok := rt.(*types.Pointer); ok {
+			rt = p.Elem()
+		}
+		named, ok := rt.(*types.Named)
+		if !ok {
+			return e
+		}
+		ent, ok := table[named.Obj().Name()+"."+fn.Name()]
+		if !ok {
+			return e
+		}
+		_, isIface := named.Underlying().(*types.Interface)
+		ptr := r.syncRecvPtr(se, sel, !isIface)
+		if ptr == nil {
+			r.skip("sync."+named.Obj().Name()+"."+fn.Name()+" left alone (receiver not resolved)", c.Pos())
+			return e
+		}
+		args := append([]ast.Expr{ptr}, c.Args...)
+		if ent.site {
+			args = append(args, intLit(r.site("sync", c.Pos())))
+		}
+		return r.rtCall(ent.fn, args...)
+	}
 }
 
 // ---- receive expressions -------------------------------------------------------
